@@ -60,6 +60,8 @@ def run(chk):
         for b in plot:
             if a != b and "clustermap" in a:
                 histories.append([a, b])
+    hcl = [n for n in names if "hierarchical_clustering" in n]
+    histories += [[a, b] for a in hcl for b in hcl if a != b]
     kd = [n for n in names if "kdtree" in n]
     histories += [[a, b, a] for a in kd for b in kd if a != b]
     for _ in range(n_hist):
